@@ -34,6 +34,10 @@ UNITS = {
     "ext_units2": ("ext:EU2", [("x", 1), ("y", 1), ("units", 1), ("units_", 1), ("units__", 1)], []),
     "ext_inner2": ("ext:EN2", [("x", 1), ("y", 1), ("inner", 1), ("inner_", 1)], []),
     "modbundle": ("mod:UB", [("a", 1), ("b", 1)], [("bp", "B1")]),
+    # bundle-valued ports named like what the generators create inside: such a port is in the module's namespace but not among its (signal) ports
+    "modbundle_inner": ("mod:UBN", [("a", 1), ("b", 1)], [("inner", "B1")]),
+    "modbundle_i": ("mod:UBI", [("a", 1), ("b", 1)], [("i", "B1")]),
+    "modbundle_units": ("mod:UBU", [("a", 1), ("b", 1)], [("units", "B1")]),
     # transistor-like devices whose ports are NOT listed drain, gate, source, bulk (as Sky130's five-terminal nfet_20v0_iso: g d s b sub)
     "mos5": ("ext:M5", [("g", 1), ("d", 1), ("s", 1), ("b", 1), ("sub", 1)], []),
     "mos4r": ("ext:M4R", [("s", 1), ("b", 1), ("g", 1), ("d", 1)], []),
@@ -63,11 +67,11 @@ def unit_design(uname):
         of = {"k": "mod", "ref": ref}
     else:
         sigs = [U.sig(n, w, True) for n, w in ports]
-        insts = [U.inst("l0", "L1", [("a", Sig(ports[0][0]))], k="ext"), U.inst("l1", "L12", [("a", Sig(ports[1][0])), ("b", Sig("c") if uname == "mod" else Bref("bp", "y"))], k="ext")]
+        insts = [U.inst("l0", "L1", [("a", Sig(ports[0][0]))], k="ext"), U.inst("l1", "L12", [("a", Sig(ports[1][0])), ("b", Sig("c") if uname == "mod" else Bref(bports[0][0], "y"))], k="ext")]
         bnds = [U.bnd(n, of_, port=True) for n, of_ in bports]
         if bports:
             bundles["B1"] = U.B1
-            insts.append(U.inst("l2", "L1", [("a", Bref("bp", "x"))], k="ext"))
+            insts.append(U.inst("l2", "L1", [("a", Bref(bports[0][0], "x"))], k="ext"))
         mods[ref] = U.mod(sigs, insts, bnds, probes=False)
         of = {"k": "mod", "ref": ref}
     D = {"bundles": bundles, "leaves": leaves, "mods": mods, "top": ref if mods else ""}
@@ -144,7 +148,7 @@ def run_case(args):
 def run(tier, seed, replay_file=None):
     o = Outcome(PID, tier, seed)
     N = 6 if tier == "quick" else 20
-    o.rule = (f"Series: n in 1..{N} x 7 unit cells x every ordered pair of distinct signal ports x given by name / by Signal; MosStack n in 1..{N}; Wrapper of "
+    o.rule = (f"Series: n in 1..{N} x {len(UNITS)} unit cells (incl. signal AND bundle ports named like the generators' own inner names) x every ordered pair of distinct signal ports x given by name / by Signal; MosStack n in 1..{N}; Wrapper of "
               "every unit; non-trivial = n >= 2 or Wrapper; distinct by case. Exhaustive over that family.")
     o.trusted_base = ["harness/props/c19.py driver", "harness/design.py", "TLC"]
     if replay_file:
